@@ -36,15 +36,15 @@ type cfgSub struct {
 }
 
 type cfgRun struct {
-	t          *Tape
-	w          *World
-	trace      []string
-	stats      map[string]int
-	topics     map[string]map[string]string
-	subs       map[string]*cfgSub
-	defRet     time.Duration
-	defTTL     time.Duration
-	hashes     map[uint64]bool
+	t      *Tape
+	w      *World
+	trace  []string
+	stats  map[string]int
+	topics map[string]map[string]string
+	subs   map[string]*cfgSub
+	defRet time.Duration
+	defTTL time.Duration
+	hashes map[uint64]bool
 }
 
 func (r *cfgRun) ev(f string, a ...any) { r.trace = append(r.trace, fmt.Sprintf(f, a...)) }
